@@ -584,6 +584,10 @@ func calculateHashes(numLeaves uint64, delHashes []Hash, proof Proof) (hashAndPo
 		for provePos > maxPos {
 			verifPoint("calculateHashes:row-advance")
 			row++
+			if row > totalRows {
+				return hashAndPos{}, nil, fmt.Errorf("invalid proof. Position %d "+
+					"doesn't exist in a forest with %d leaves", provePos, numLeaves)
+			}
 			maxPos, _ = maxPositionAtRow(row, totalRows, numLeaves)
 		}
 
